@@ -8,6 +8,7 @@ import (
 	"crypto/ed25519"
 	"crypto/mldsa"
 	"crypto/sha512"
+	"encoding/binary"
 	"encoding/json"
 	"errors"
 	"fmt"
@@ -159,6 +160,17 @@ func c27SerVerdict(s serialization.Serializer, decs []*auditlog.Entry, log []*au
 	return verifx.AuditVerdict(out, ed, ml), rt
 }
 
+// c27JSONTimestamp returns the "timestamp" string as written in the JSON line.
+func c27JSONTimestamp(line []byte) string {
+	var v struct {
+		Timestamp string `json:"timestamp"`
+	}
+	if err := json.Unmarshal(line, &v); err != nil {
+		return "?"
+	}
+	return v.Timestamp
+}
+
 func c27JSONPaths(line []byte) string {
 	var v map[string]any
 	if err := json.Unmarshal(line, &v); err != nil {
@@ -215,6 +227,19 @@ func c27Variants(r *verifx.Rng, name string, v []byte) [][]byte {
 	switch {
 	case name == "Version":
 		return [][]byte{c27AddOne(v, -1), c27AddOne(v, 1)}
+	case name == "Timestamp" && len(v) == 8:
+		// one nanosecond later; the same instant cut to a whole second; cut to a tenth of a second
+		// (the JSON layout trims trailing zeros of the fraction)
+		ns := int64(binary.BigEndian.Uint64(v))
+		out := [][]byte{c27AddOne(v, 1)}
+		for _, unit := range []int64{1_000_000_000, 100_000_000} {
+			if t := ns - ns%unit; t != ns {
+				b := make([]byte, 8)
+				binary.BigEndian.PutUint64(b, uint64(t))
+				out = append(out, b)
+			}
+		}
+		return out
 	case c27IntFields[name]:
 		return [][]byte{c27AddOne(v, 1)}
 	case c27FixedBytes[name]:
@@ -319,7 +344,7 @@ func (c *c27Runner) emitBase(withBin bool) {
 	}
 	rtb, rtj := "ok", "ok"
 	for i, e := range c.base {
-		binS, jp := "skip", "skip"
+		binS, jp, jts := "skip", "skip", "skip"
 		for _, s := range c27Sers {
 			b, err := c27Encode(s.s, e)
 			if err != nil {
@@ -339,6 +364,9 @@ func (c *c27Runner) emitBase(withBin bool) {
 					rtj = fmt.Sprintf("%d:%s", i, diff)
 				}
 			}
+			if s.name == "json" {
+				jts = verifx.HexS(c27JSONTimestamp(b))
+			}
 			if withBin {
 				if s.name == "bin" {
 					binS = verifx.Hex(b)
@@ -347,7 +375,8 @@ func (c *c27Runner) emitBase(withBin bool) {
 				}
 			}
 		}
-		c.out.Line("e %d %s %s bin=%s jp=%s", i, verifx.AuditLine(e), c.oracle(e), binS, jp)
+		_, off := e.Timestamp.Zone()
+		c.out.Line("e %d %s %s bin=%s jp=%s jts=%s tz=%d", i, verifx.AuditLine(e), c.oracle(e), binS, jp, jts, off)
 	}
 	// the whole file, decoded in one go
 	c.decs = map[string][]*auditlog.Entry{}
@@ -526,6 +555,8 @@ func runC27(args []string) {
 			return
 		}
 		out.Case(k, seed)
+		// the process zone rotates with the case: the middleware's own time.Now() carries it
+		out.Line("zone %d", verifx.AuditSetZone(k+1))
 		k++
 		func() {
 			defer func() {
